@@ -555,8 +555,11 @@ def run_diagram_rule(ctx: Ctx, res: Result) -> None:
     problems: list[tuple[str, str, str]] = []
     covered_by: dict[str, S.Event] = {}
     for tag in (START_TAG, END_TAG):
-        # a search "covers" a tag when its result depends on the tag (needle, or a range / receiver computed from a search for it)
-        cands = [ev for ev in tagged if tag in _const_texts(ev.result.deps)]
+        # the searches *for* the tag (the tag is part of the needle / pattern).  A later search whose range or receiver was
+        # computed from such a search says something about the tag only through the constraints the symbolic run attaches
+        # to it (partition of an empty rest, a range clamped to empty) - a result that merely depends on it proves nothing:
+        # `text.rfind(start, 0, text.rfind(end) - 1)` searches an end-relative range when the end tag is absent
+        cands = [ev for ev in tagged if tag in _const_texts(ev.result.meta[0] if ev.result.meta else ev.result.deps)]
         good = [ev for ev in cands if verdicts[id(ev)][0]]
         if good:
             covered_by[tag] = good[0]
@@ -585,6 +588,47 @@ def run_diagram_rule(ctx: Ctx, res: Result) -> None:
         evs = list({id(e_): e_ for e_ in covered_by.values()}.values())
         raised = sorted({x.exc.split(".")[-1] for x in rejections(sym) for e_ in evs if e_.result.kind != "index" and sat_path(x.path, absent(e_))})
         res.add("C13.R2", construct, True, f"a diagram without {START_TAG} / {END_TAG} ({', '.join('`' + norm(e_.node, 40) + '`' for e_ in evs)} finds nothing) raises {', '.join(raised) or 'the error of the search itself'} and reaches no verdict", where(aa, aa.node), kind="dominance")
+    _tag_order(sym, res, dr, aa, tagged, bad)
+
+
+def _tag_order(sym: S.Sym, res: Result, dr: ClassInfo, aa: FuncInfo, tagged: list[S.Event], bad: list[S.Outcome]) -> None:
+    """A file in which @enduml only occurs before @startuml has no tagged body.  Pattern / partition / bounded searches order the
+    tags by construction; two *independent* position searches over the same text (neither range depends on the other result)
+    whose positions cut the body out of the text must be related to each other (a comparison, a test of the slice, a further
+    search involving both tags) on every path to a verdict."""
+    construct = f"{dr.module.relpath}::DiagramRule.assert_applies::start tag before end tag"
+
+    def needle(ev: S.Event) -> str:
+        return _const_texts(ev.result.meta[0]) if ev.result.meta else ""
+
+    pos = [ev for ev in tagged if ev.result.kind in ("find", "index") and ev.name in S.STR_SEARCH and ev.recv is not None]
+    starts = [ev for ev in pos if START_TAG in needle(ev) and END_TAG not in _const_texts(ev.result.deps)]
+    ends = [ev for ev in pos if END_TAG in needle(ev) and START_TAG not in _const_texts(ev.result.deps)]
+    slices = [ev for ev in sym.events if ev.kind == "slice" and ev.recv is not None and len(ev.args) == 2 and ev.args[0] is not None and ev.args[1] is not None]
+    for a in starts:
+        for b in ends:
+            if key(a.recv) != key(b.recv):
+                continue
+            cut = [sl for sl in slices if key(sl.recv) == key(a.recv) and a.result.key in key(sl.args[0]) and b.result.key in key(sl.args[1])]
+            for sl in cut:
+                for o in bad:
+                    if not (must(o.path, sl.path) and must(o.path, a.path) and must(o.path, b.path)):
+                        continue
+                    related = any(a.result.key in n and b.result.key in n for c in o.path for n in atoms_of(c))
+                    related = related or any(sl.result.key in n for c in o.path for n in atoms_of(c))
+                    related = related or any(ev is not a and ev is not b and START_TAG in _const_texts(ev.result.deps) and END_TAG in _const_texts(ev.result.deps) and must(o.path, ev.path) for ev in tagged)
+                    if related:
+                        continue
+                    res.add(
+                        "C13.R2",
+                        construct,
+                        False,
+                        f"`{norm(a.node, 50)}` and `{norm(b.node, 50)}` in {a.ctx.qualname} look for the two tags independently of each other and `{norm(sl.node, 60)}` cuts the text between the two positions, but nothing on the way to {describe_outcome(o)} relates the positions: a file whose only {END_TAG} precedes {START_TAG} (no tagged body) yields an empty diagram and a verdict instead of a parsing error",
+                        f"{sl.ctx.relpath}:{getattr(sl.node, 'lineno', 0)}",
+                        kind="dominance",
+                    )
+                    return
+    res.add("C13.R2", construct, True, "the tag positions are ordered by construction (one pattern / a search bounded by the other position) or compared before the body is used", where(aa, aa.node), nontrivial=False, kind="dominance")
 
 
 # --------------------------------------------------------------------------- R2: entry point options
